@@ -276,8 +276,9 @@ def workload(tier, rng, shard, nshards, work):
         k = 0
         for i in range(n):
             tiny = i % 4 == 3
+            # (labels handed to the constructors with surrounding white space of every kind: a tier holds them trimmed, C05)
             data, _cl = tggen.gen_textgrid(rng, ntiers=(1, 5), nentries=(0, 7), keywords=(i % 5 == 4), min_gap=0 if tiny else 2e-8,
-                                           scale_class="tiny" if tiny else None)
+                                           scale_class="tiny" if tiny else None, ws_labels=(i % 3 == 1))
             tg = TC.build_tg(data)
             _int_typed[0] = False
             if i % 6 == 5:
